@@ -34,12 +34,12 @@ impl<BS: Blockstore, K, V> Map2<BS, K, V> {
     /// content addressing: loading a root yields the map that was flushed to it
     #[verifier::external_body]
     pub fn load(store: BS, root: &Cid, config: Config, name: &'static str) -> (r: Result<Self, ActorError>)
-        ensures r.is_ok() ==> r->Ok_0.view() == map2_decode::<K, V>(*root),
+        ensures vx_store_ok() ==> r.is_ok(), r.is_ok() ==> r->Ok_0.view() == map2_decode::<K, V>(*root),
     { unimplemented!() }
 
     #[verifier::external_body]
     pub fn get(&self, key: &K) -> (r: Result<Option<&V>, ActorError>)
-        ensures
+        ensures vx_store_ok() ==> r.is_ok(),
             r.is_ok() ==> (r->Ok_0.is_some() <==> self.view().dom().contains(*key)),
             r.is_ok() && r->Ok_0.is_some() ==> *(r->Ok_0->Some_0) == self.view()[*key],
     { unimplemented!() }
@@ -55,12 +55,12 @@ impl<BS: Blockstore, K, V> Map2<BS, K, V> {
 
     #[verifier::external_body]
     pub fn contains_key(&self, key: &K) -> (r: Result<bool, ActorError>)
-        ensures r.is_ok() ==> r->Ok_0 == self.view().dom().contains(*key),
+        ensures vx_store_ok() ==> r.is_ok(), r.is_ok() ==> r->Ok_0 == self.view().dom().contains(*key),
     { unimplemented!() }
 
     #[verifier::external_body]
     pub fn set(&mut self, key: &K, v: V) -> (r: Result<Option<V>, ActorError>)
-        ensures
+        ensures vx_store_ok() ==> r.is_ok(),
             r.is_ok() ==> final(self).view() == old(self).view().insert(*key, v),
             r.is_ok() ==> (r->Ok_0.is_some() <==> old(self).view().dom().contains(*key)),
             r.is_ok() && r->Ok_0.is_some() ==> r->Ok_0->Some_0 == old(self).view()[*key],
@@ -78,7 +78,7 @@ impl<BS: Blockstore, K, V> Map2<BS, K, V> {
 
     #[verifier::external_body]
     pub fn delete(&mut self, key: &K) -> (r: Result<Option<V>, ActorError>)
-        ensures
+        ensures vx_store_ok() ==> r.is_ok(),
             r.is_ok() ==> final(self).view() == old(self).view().remove(*key),
             r.is_ok() ==> (r->Ok_0.is_some() <==> old(self).view().dom().contains(*key)),
             r.is_ok() && r->Ok_0.is_some() ==> r->Ok_0->Some_0 == old(self).view()[*key],
@@ -87,7 +87,7 @@ impl<BS: Blockstore, K, V> Map2<BS, K, V> {
 
     #[verifier::external_body]
     pub fn flush(&mut self) -> (r: Result<Cid, ActorError>)
-        ensures
+        ensures vx_store_ok() ==> r.is_ok(),
             final(self).view() == old(self).view(),
             r.is_ok() ==> map2_decode::<K, V>(r->Ok_0) == old(self).view(),
     { unimplemented!() }
